@@ -3,7 +3,10 @@
 (T) lean/DoitModel/Props/C17.lean: classify_py, py_exec, tools_actions, classify_cmd (+_status, _signal), cmd_exec, task_execute,
     teardown_execute, task_values_lookup, classification_verbosity_independent, writer_interface, restore_nested (+_any, restore_exec, forest_well_nested), restore_nested_live (the machine
     with the Writer's live copy, + forest_well_nested_live), live_rule; counterexamples
-    overlap_counterexample(_min) (F-C17a, open) and pinned_kwargs_counterexample (F-C17b, fixed).
+    overlap_counterexample(_min) (F-C17a, open) and pinned_kwargs_counterexample (F-C17b, fixed);
+    io.capture as a mode of the stream machine (Model/Act.lean `Mode`, Proofs/ActMode.lean): restore_forest_mode,
+    restore_exec_nocapture, nocapture_passthrough(_init), captured_intact_mode, mode_extends_fwd, capture_mode_independent_classification,
+    nocapture_overlap_harmless, save_out_independent_of_capture_partial (+ _refuted: the full statement is false of the code), live_rule_nocapture.
 (K) the real PythonAction / CmdAction / Task.execute of $VERIF_REPO are run on generated cases (harness/actlib.py)
     and every observable is compared with the Lean model through doitdrv.
 (P) the statement: classification by category, task stops at the first unsuccessful action and result/values
@@ -44,7 +47,9 @@ META = {
                   'form of the Task.execute loop for every action list, and -- by induction over well-nested step '
                   'lists of any depth and length -- that nested or disjoint python-action executions leave the '
                   'stdout cell holding the original stream and give every action exactly its own writes in order, '
-                  'also with the live copy of Writer (forwarding into the enclosing action and the original stream). '
+                  'also with the live copy of Writer (forwarding into the enclosing action and the original stream), and '
+                  'with io.capture off as a second swap discipline mixed into the nesting (cell restored from any state, '
+                  'every write of a capture-off execution on the original stream in order exactly once at every verbosity). '
                   'Overlapping executions (threads) provably break this (decide-checked counterexample = the open '
                   'finding F-C17a).  The model is tied to doit/action.py and doit/task.py on every run by executing '
                   'the real classes on generated return values, exit statuses 0..255, signals, byte outputs, '
@@ -166,8 +171,14 @@ def requests_for(case):
         return [{'model': 'act', 'op': 'stream', 'forest': case['forest']},
                 {'model': 'act', 'op': 'streamfwd', 'forest': fwd_forest(case, 'o')},
                 {'model': 'act', 'op': 'streamfwd', 'forest': fwd_forest(case, 'e')}]
+    if k == 'ncnest':
+        return [{'model': 'act', 'op': 'streammode', 'forest': mode_forest(case, 'o')},
+                {'model': 'act', 'op': 'streammode', 'forest': mode_forest(case, 'e')}]
     if k == 'overlap':
         return [{'model': 'act', 'op': 'stream', 'evs': actlib.overlap_evs(case)}]
+    if k == 'ncoverlap':
+        return [{'model': 'act', 'op': 'streammode', 'evs': actlib.overlap_mode_evs(case, 'o')},
+                {'model': 'act', 'op': 'streammode', 'evs': actlib.overlap_mode_evs(case, 'e')}]
     raise ValueError(k)
 
 
@@ -341,8 +352,63 @@ def fwd_forest(case, chan):
     return conv(case['forest'])
 
 
+def mode_forest(case, chan):
+    """the forest with, per execution, "a live stream is handed over on this channel" and its io.capture mode"""
+    verb = {int(k): v for k, v in case.get('verb', {}).items()}
+    capm = {int(k): v for k, v in case.get('cap', {}).items()}
+
+    def on(a):
+        v = verb.get(a, 0)
+        return (v not in (0, 1)) if chan == 'o' else (v != 0)
+
+    def conv(items):
+        out = []
+        for it in items:
+            if it[0] == 'x':
+                out.append(['x', it[1], on(it[1]), bool(capm.get(it[1], True)), conv(it[2])])
+            else:
+                out.append(it)
+        return out
+    return conv(case['forest'])
+
+
+def ncnest_expect(case):
+    """(P) the statement side, computed from the case alone: what every capturing action's buffer and the original
+    stream of a channel must hold.  A token goes into the buffer of its author if that captures, and on to the
+    enclosing execution iff the author passes text on: capture off (always, whatever the verbosity), or capture on
+    and live on that channel; and so on up to the original stream."""
+    verb = {int(k): v for k, v in case.get('verb', {}).items()}
+    capm = {int(k): v for k, v in case.get('cap', {}).items()}
+    acts = actlib.forest_actions(case['forest'])
+    bufs = {c: {str(a): [] for a in acts if not acts[a]['kw'] and capm.get(a, True)} for c in 'oe'}
+    orig = {'o': [], 'e': []}
+
+    def live(a, chan):
+        v = verb.get(a, 0)
+        return (v not in (0, 1)) if chan == 'o' else (v != 0)
+
+    def walk(items, owner):
+        for it in items:
+            if it[0] == 'w' and owner is not None:
+                for chan in 'oe':
+                    x = owner
+                    while True:
+                        if capm.get(x, True):
+                            bufs[chan][str(x)].append([owner, it[1]])
+                            if not live(x, chan):
+                                break
+                        x = acts[x]['parent']
+                        if x is None:
+                            orig[chan].append([owner, it[1]])
+                            break
+            elif it[0] == 'x':
+                walk(it[2], it[1])
+    walk(case['forest'], None)
+    return bufs, orig
+
+
 RUNNERS = {'py': actlib.run_py, 'cmd': actlib.run_cmd, 'task': actlib.run_task, 'nested': actlib.run_nested,
-           'overlap': actlib.run_overlap}
+           'ncnest': actlib.run_nested, 'ncoverlap': actlib.run_overlap, 'overlap': actlib.run_overlap}
 
 
 # ----------------------------------------------------------------------------------------------
@@ -481,6 +547,54 @@ def judge(case, obs, model):
                     cmp('misattributed', 'P', own, spec)
                     cmp('forwarded', 'P', got, fwd[chan].get(a))
             cmp('live-nested', 'P', obs['O' if chan == 'o' else 'E'], orig[chan])
+    elif k == 'ncnest':
+        capm = {int(a): v for a, v in case.get('cap', {}).items()}
+        if obs.get('harness_exc'):
+            bad.append(('escaped-exception', 'K', obs['harness_exc']))
+        if not model[0]['nodup']:
+            bad.append(('bad-case', 'K', 'action ids not distinct'))
+        # (P) restore_exec_nocapture / restore_forest_mode: the installed objects are back, after every top-level execution
+        cmp('cell-not-restored', 'P', obs['restored'], [True, True])
+        for rec in obs['after_each_top']:
+            cmp('cell-not-restored', 'P', rec[1:], [True, True])
+        bufs, want = ncnest_expect(case)
+        for a, e in (obs.get('escaped') or {}).items():
+            if a in case['cap']:
+                ok = [None, 'KeyboardInterrupt'] if case['ending'].get(a) == 'base' else [None]
+                if actlib.forest_actions(case['forest'])[int(a)]['kw']:
+                    ok = ['InvalidTask']
+                if e not in ok:
+                    bad.append(('escaped-exception', 'P', 'action %s: %s left Task.execute' % (a, e)))
+        for chan, name, mf in (('o', 'out', model[0]), ('e', 'err', model[1])):
+            live = obs['O' if chan == 'o' else 'E']
+            cmp('mode-cell', 'K', mf['cell'], 'orig')
+            cmp('mode-unbound', 'K', mf['unbound'], False)
+            for a, mo in mf['out'].items():
+                got = obs[name].get(a)
+                cmp('mode-model-out', 'K', got, mo)                       # token for token; None when capture is off
+                if not capm.get(int(a), True):
+                    cmp('nocapture-stored', 'P', got, None)                # nothing captured when capture is off
+                else:
+                    cmp('misattributed', 'P', None if got is None else [t for t in got if str(t[0]) == a], mf['spec'][a])
+                    cmp('forwarded', 'P', got, bufs[chan].get(a))
+            cmp('mode-model-orig', 'K', live, mf['origLog'])
+            # (P) nocapture_passthrough: in order, exactly once, whatever the verbosity of the capture-off executions
+            cmp('nocapture-passthrough', 'P', live, want[chan])
+    elif k == 'ncoverlap':
+        if obs.get('problem'):
+            bad.append(('schedule-not-followed', 'K', obs['problem']))
+        written = [[st[1], st[2]] for st in case['schedule'] if st[0] == 'w']
+        # (P) nocapture_overlap_harmless: whatever the interleaving of the threads
+        cmp('cell-not-restored', 'P', obs['restored'], [True, True])
+        for (name, live), mf in zip((('out', 'O'), ('err', 'E')), model):
+            if not mf.get('ncOnly'):
+                bad.append(('bad-case', 'K', 'not a capture-off schedule'))
+            cmp('mode-cell', 'K', [mf['cell'] == 'orig'] * 2, obs['restored'])
+            cmp('mode-model-orig', 'K', obs[live], mf['origLog'])
+            cmp('nocapture-passthrough', 'P', obs[live], written)
+            for a in mf['out']:
+                cmp('mode-model-out', 'K', obs[name].get(a), mf['out'][a])
+                cmp('nocapture-stored', 'P', obs[name].get(a), None)
     elif k == 'overlap':
         m = model[0]
         if obs.get('problem'):
@@ -575,7 +689,7 @@ def shrink_candidates(case):
                 c = copy.deepcopy(case)
                 c['actions'][i]['chunks'] = []
                 yield c
-    elif k == 'nested':
+    elif k in ('nested', 'ncnest'):
         def drop(items):
             for i in range(len(items)):
                 yield items[:i] + items[i + 1:]
@@ -587,7 +701,7 @@ def shrink_candidates(case):
             c = copy.deepcopy(case)
             c['forest'] = f
             yield c
-    elif k == 'overlap':
+    elif k in ('overlap', 'ncoverlap'):
         acts = [a for th in case['threads'] for a in th]
         for a in acts:
             if len(acts) > 2:
@@ -697,7 +811,7 @@ def nontrivial(case):
         return bool(case.get('chunks')) or case.get('exit', ['status', 0])[1] != 0
     if k == 'task':
         return len(case['actions']) > 1
-    if k == 'nested':
+    if k in ('nested', 'ncnest'):
         return any(it[0] == 'x' and any(s[0] == 'x' for s in it[2]) for it in case['forest']) or len(case['forest']) > 1
     return True
 
@@ -709,6 +823,11 @@ def count_case(st, case):
         st.count('py.cat:' + case['ret']['cat'])
         st.count('py.capture:%s' % case.get('capture', True))
         st.count('py.v:%s' % case.get('v'))
+        pcap = 'no' if case.get('cls') == 'interactive' else cap_class(case.get('capture', True))
+        st.count('py.mode:capture-%s.v:%s' % (pcap, case.get('v')))
+        if all(actlib.op_kind(w) in ('write', 'print', 'flush', 'isatty') for w in case.get('writes', [])):
+            # hypothesis of capture_mode_independent_classification (StreamOp.common)
+            st.count('py.hyp:common_ops.capture-%s' % pcap)
         if case.get('kwargs_raise'):
             st.count('py.kwargs_raise')
         if case.get('swap', 'none') != 'none':
@@ -729,6 +848,9 @@ def count_case(st, case):
         st.count('cmd.rc:' + ('signal' if rc < 0 else '0' if rc == 0 else '1-125' if rc <= 125 else '126-255'))
         st.count('cmd.capture:%s' % case.get('capture', True))
         st.count('cmd.v:%s' % case.get('v'))
+        st.count('cmd.mode:capture-%s.v:%s' % (cap_class(case.get('capture', True)), case.get('v')))
+        if case.get('save_out') is not None and case.get('cls', 'CmdAction') == 'CmdAction':
+            st.count('cmd.save_out.capture-%s.%s' % (cap_class(case.get('capture', True)), 'ok' if rc == 0 else 'unsuccessful'))
         size = sum(len(actlib.chunk_bytes(s)) for c, s in case.get('chunks', []))
         st.count('cmd.bytes:' + ('0' if size == 0 else '<1k' if size < 1024 else '<64k' if size < 65536 else '>=64k'))
         if case.get('expand', 'ok') != 'ok':
@@ -757,6 +879,19 @@ def count_case(st, case):
     elif k == 'nested':
         st.count('nested.actions:%d' % min(8, len(actlib.forest_actions(case['forest']))))
         st.count('nested.depth:%d' % forest_depth(case['forest']))
+    elif k == 'ncnest':
+        acts = actlib.forest_actions(case['forest'])
+        st.count('ncnest.depth:%d' % forest_depth(case['forest']))
+        for a, info in acts.items():
+            if info['kw']:
+                continue
+            capv = case['cap'].get(str(a), True)
+            st.count('ncnest.exec.capture:%s.v:%s' % (capv, case['verb'].get(str(a), 0)))
+            st.count('ncnest.exec.capture:%s.end:%s' % (capv, case['ending'].get(str(a), 'true')))
+            par = info['parent']
+            if par is not None:
+                st.count('ncnest.nesting:%s-in-%s' % ('on' if capv else 'off',
+                                                      'on' if case['cap'].get(str(par), True) else 'off'))
     elif k == 'runner':
         st.count('runner.%s.%s' % (case['par'], case['mode']))
         if case.get('reporter') == 'json':
@@ -775,6 +910,9 @@ def count_case(st, case):
                     st.count('runner.cmd' + ('.save_out.' + case['par'] if a.get('save_out') is not None else ''))
                 if a.get('end') == 'dict':
                     st.count('runner.values.' + case['par'])
+    elif k == 'ncoverlap':
+        st.count('ncoverlap.threads:%d.v:%s' % (len(case['threads']), case.get('v')))
+        st.count('ncoverlap.overlapping' if actlib.overlapping_pairs(case) else 'ncoverlap.disjoint')
     elif k == 'overlap':
         st.count('overlap.threads:%d' % len(case['threads']))
         st.count('overlap.overlapping' if actlib.overlapping_pairs(case) else 'overlap.disjoint')
@@ -826,6 +964,8 @@ def process_batch(batch):
         count_case(st, case)
         if case['kind'] in ('nested', 'overlap') and not probs:
             st.count('hyp.well_nested_and_nodup')
+        if case['kind'] == 'ncnest' and not probs:
+            st.count('hyp.mode_forest_nodup')
         if probs:
             if drv is None:
                 drv = common.LeanDriver()
@@ -1173,6 +1313,39 @@ def gen_nested(rng):
             'ending': {str(a): rng.choice(actlib.ENDINGS) for a in acts}}
 
 
+def gen_ncnest(rng):
+    """a nested scenario where every execution has its own io.capture (True/False) besides verbosity and ending"""
+    c = gen_nested(rng)
+    acts = actlib.forest_actions(c['forest'])
+    c['kind'] = 'ncnest'
+    p_off = rng.choice([0.3, 0.6, 1.0])
+    c['cap'] = {str(a): not (rng.random() < p_off) for a in acts}
+    return c
+
+
+def exhaustive_ncnest():
+    """all forests of up to 3 executions x every capture assignment x verbosity 0 / 1 / 2 (uniform) + all endings for
+    a single capture-off execution"""
+    out = []
+    for base in exhaustive_nested():
+        if list(base['verb'].values())[:1] != [0]:
+            continue
+        acts = sorted(int(a) for a in base['verb'])
+        for caps in itertools.product([True, False], repeat=len(acts)):
+            if all(caps):
+                continue
+            for v in (0, 1, 2):
+                out.append({'kind': 'ncnest', 'forest': base['forest'], 'verb': {str(a): v for a in acts},
+                            'ending': {str(a): 'true' for a in acts},
+                            'cap': {str(a): c for a, c in zip(acts, caps)}})
+    for e in actlib.ENDINGS:
+        for v in (0, 1, 2):
+            for inner_cap in (True, False):
+                out.append({'kind': 'ncnest', 'forest': [['x', 0, [['w', 0], ['x', 1, [['w', 1]]], ['w', 2]]]],
+                            'verb': {'0': v, '1': 2}, 'ending': {'0': e, '1': e}, 'cap': {'0': False, '1': inner_cap}})
+    return out
+
+
 def gen_overlap(rng):
     nthreads = rng.choice([2, 2, 2, 3])
     threads, nxt = [], 0
@@ -1439,6 +1612,18 @@ def build_cases(ctx, scale):
                 cases.append(gen(r, big=(i % (10 if quick else 25) == 0)))
             else:
                 cases.append(gen(r))
+    # io.capture as a mode of the stream machine (own rng: the streams above are unchanged)
+    cases += exhaustive_ncnest()
+    r3 = ctx.sub_rng('ncoverlap')
+    for v in (0, 1, 2):      # forced thread interleavings with capture off: all 20 of two threads + random ones
+        for c in exhaustive_overlap():
+            cases.append(dict(c, kind='ncoverlap', cap=False, v=v))
+    for i in range((60 if quick else 600) * scale):
+        c = gen_overlap(random.Random(r3.getrandbits(64)))
+        cases.append(dict(c, kind='ncoverlap', cap=False, v=r3.choice([0, 1, 2])))
+    r2 = ctx.sub_rng('ncnest')
+    for i in range((1200 if quick else 12000) * scale):
+        cases.append(gen_ncnest(random.Random(r2.getrandbits(64))))
     return cases
 
 
@@ -1448,7 +1633,7 @@ def cost(case):
         return 8
     if k == 'task':
         return 1 + 8 * sum(1 for a in case['actions'] if a['t'] == 'cmd')
-    if k == 'overlap':
+    if k in ('overlap', 'ncoverlap'):
         return 6
     return 1
 
@@ -1498,10 +1683,14 @@ def run(ctx):
         'task': 'all action sequences up to length %d over a %d-behaviour alphabet'
                 % (2 if ctx.tier == 'quick' else 3, len(TASK_ALPHABET) + len(TASK_CMDS)),
         'overlap': 'all 20 interleavings of two single-action threads (start, write, end)',
-        'nested': 'all forests of up to 3 executions'}
+        'nested': 'all forests of up to 3 executions',
+        'ncnest': 'all forests of up to 3 executions x every io.capture assignment x verbosity 0/1/2; every ending of a '
+                  'capture-off execution with a nested execution of either mode'}
     ctx.extra['hypotheses_satisfied'] = {
         'WN none evs /\\ Nodup (nested cases, by construction through `flatten`, theorem forest_well_nested)':
             ctx.dist.get('kind:nested', 0),
+        'Nodup (Mode.started ..) (ncnest cases: restore_forest_mode / restore_exec_nocapture / nocapture_passthrough)':
+            ctx.dist.get('hyp.mode_forest_nodup', 0),
         'overlap schedules that are not well nested (hypothesis false, counterexample side)':
             ctx.dist.get('overlap.overlapping', 0)}
     clear_hang_flag()
